@@ -861,17 +861,174 @@ impl<'a> Builder<'a> {
     }
 }
 
+/// Bounds of the values an expression can take, derived from the current bounds of its variables.
+#[derive(Clone, Copy, Debug)]
+enum ExprBounds {
+    Int(i64, i64),
+    Float(f64, f64),
+}
+
+impl ExprBounds {
+    /// Smallest / largest value an integer auxiliary variable can be asked to hold.
+    /// `i32::MIN` / `i32::MAX` themselves are reserved: variable creation reads them as "unbounded".
+    const INT_LO: i64 = i32::MIN as i64 + 1;
+    const INT_HI: i64 = i32::MAX as i64 - 1;
+
+    /// Integer bounds, clamped to what an `i32` variable can represent so that the
+    /// `i64` interval arithmetic of a parent expression cannot overflow either.
+    fn int(lo: i64, hi: i64) -> Self {
+        ExprBounds::Int(lo.clamp(Self::INT_LO, Self::INT_HI), hi.clamp(Self::INT_LO, Self::INT_HI))
+    }
+
+    fn as_float(self) -> (f64, f64) {
+        match self {
+            ExprBounds::Int(lo, hi) => (lo as f64, hi as f64),
+            ExprBounds::Float(lo, hi) => (lo, hi),
+        }
+    }
+}
+
+fn min_max_i64(values: [i64; 4]) -> (i64, i64) {
+    let mut lo = values[0];
+    let mut hi = values[0];
+    for &v in &values[1..] {
+        if v < lo { lo = v; }
+        if v > hi { hi = v; }
+    }
+    (lo, hi)
+}
+
+fn min_max_f64(values: [f64; 4]) -> (f64, f64) {
+    let mut lo = values[0];
+    let mut hi = values[0];
+    for &v in &values[1..] {
+        if v < lo { lo = v; }
+        if v > hi { hi = v; }
+    }
+    (lo, hi)
+}
+
+/// Current bounds of a variable. An empty integer domain (the model is already unsatisfiable and
+/// will be reported as such by validation) and the dummy id handed out after a memory-limit hit
+/// have no bounds to read: `[0, 0]` stands in for them.
+fn var_bounds(model: &Model, var: VarId) -> ExprBounds {
+    if var.to_index() >= model.vars.count() {
+        return ExprBounds::Int(0, 0);
+    }
+    match &model.vars[var] {
+        crate::variables::Var::VarI(sparse_set) => {
+            if sparse_set.is_empty() {
+                ExprBounds::Int(0, 0)
+            } else {
+                ExprBounds::Int(sparse_set.min() as i64, sparse_set.max() as i64)
+            }
+        }
+        crate::variables::Var::VarF(interval) => ExprBounds::Float(interval.min, interval.max),
+    }
+}
+
+/// Interval arithmetic on an expression tree: the bounds every value of `expr` lies in, given the
+/// current bounds of the variables it mentions. These are the bounds `Model::add` / `sub` / `mul` /
+/// `div` / `modulo` give their result variables, applied recursively to nested expressions.
+fn expr_bounds(model: &Model, expr: &ExprBuilder) -> ExprBounds {
+    match expr {
+        ExprBuilder::Var(var_id) => var_bounds(model, *var_id),
+        ExprBuilder::Val(Val::ValI(i)) => ExprBounds::Int(*i as i64, *i as i64),
+        ExprBuilder::Val(Val::ValF(f)) => ExprBounds::Float(*f, *f),
+        ExprBuilder::Add(left, right) => {
+            match (expr_bounds(model, left), expr_bounds(model, right)) {
+                (ExprBounds::Int(l_lo, l_hi), ExprBounds::Int(r_lo, r_hi)) => ExprBounds::int(l_lo + r_lo, l_hi + r_hi),
+                (l, r) => {
+                    let ((l_lo, l_hi), (r_lo, r_hi)) = (l.as_float(), r.as_float());
+                    ExprBounds::Float(l_lo + r_lo, l_hi + r_hi)
+                }
+            }
+        }
+        ExprBuilder::Sub(left, right) => {
+            match (expr_bounds(model, left), expr_bounds(model, right)) {
+                (ExprBounds::Int(l_lo, l_hi), ExprBounds::Int(r_lo, r_hi)) => ExprBounds::int(l_lo - r_hi, l_hi - r_lo),
+                (l, r) => {
+                    let ((l_lo, l_hi), (r_lo, r_hi)) = (l.as_float(), r.as_float());
+                    ExprBounds::Float(l_lo - r_hi, l_hi - r_lo)
+                }
+            }
+        }
+        ExprBuilder::Mul(left, right) => {
+            // The extreme products are at the corners of the operand box
+            match (expr_bounds(model, left), expr_bounds(model, right)) {
+                (ExprBounds::Int(l_lo, l_hi), ExprBounds::Int(r_lo, r_hi)) => {
+                    let (lo, hi) = min_max_i64([l_lo * r_lo, l_lo * r_hi, l_hi * r_lo, l_hi * r_hi]);
+                    ExprBounds::int(lo, hi)
+                }
+                (l, r) => {
+                    let ((l_lo, l_hi), (r_lo, r_hi)) = (l.as_float(), r.as_float());
+                    let (lo, hi) = min_max_f64([l_lo * r_lo, l_lo * r_hi, l_hi * r_lo, l_hi * r_hi]);
+                    ExprBounds::Float(lo, hi)
+                }
+            }
+        }
+        ExprBuilder::Div(left, right) => {
+            match (expr_bounds(model, left), expr_bounds(model, right)) {
+                (ExprBounds::Int(l_lo, l_hi), ExprBounds::Int(r_lo, r_hi)) => {
+                    if r_lo > 0 || r_hi < 0 {
+                        // Divisor of constant sign: the quotient is monotone in each operand
+                        let (lo, hi) = min_max_f64([
+                            l_lo as f64 / r_lo as f64,
+                            l_lo as f64 / r_hi as f64,
+                            l_hi as f64 / r_lo as f64,
+                            l_hi as f64 / r_hi as f64,
+                        ]);
+                        ExprBounds::int(lo.floor() as i64, hi.ceil() as i64)
+                    } else {
+                        // The divisor range contains 0: for a non-zero integer divisor |x / y| <= |x|
+                        let magnitude = l_lo.abs().max(l_hi.abs());
+                        ExprBounds::int(-magnitude, magnitude)
+                    }
+                }
+                (l, r) => {
+                    let ((l_lo, l_hi), (r_lo, r_hi)) = (l.as_float(), r.as_float());
+                    if Val::range_contains_unsafe_divisor(Val::ValF(r_lo), Val::ValF(r_hi)) {
+                        // No finite bound exists: leave it to the bound inference for unbounded variables
+                        ExprBounds::Float(f64::NEG_INFINITY, f64::INFINITY)
+                    } else {
+                        let (lo, hi) = min_max_f64([l_lo / r_lo, l_lo / r_hi, l_hi / r_lo, l_hi / r_hi]);
+                        ExprBounds::Float(lo, hi)
+                    }
+                }
+            }
+        }
+        ExprBuilder::Modulo(left, right) => {
+            // Remainder of a truncating division: it has the sign of the dividend (or is 0), its
+            // magnitude is at most the dividend's and smaller than the divisor's
+            match (expr_bounds(model, left), expr_bounds(model, right)) {
+                (ExprBounds::Int(l_lo, l_hi), ExprBounds::Int(r_lo, r_hi)) => {
+                    let magnitude = (r_lo.abs().max(r_hi.abs()) - 1).max(0);
+                    let lo = if l_lo >= 0 { 0 } else { l_lo.max(-magnitude) };
+                    let hi = if l_hi <= 0 { 0 } else { l_hi.min(magnitude) };
+                    ExprBounds::int(lo, hi)
+                }
+                (l, r) => {
+                    let ((l_lo, l_hi), (r_lo, r_hi)) = (l.as_float(), r.as_float());
+                    let magnitude = r_lo.abs().max(r_hi.abs());
+                    let lo = if l_lo >= 0.0 { 0.0 } else { l_lo.max(-magnitude) };
+                    let hi = if l_hi <= 0.0 { 0.0 } else { l_hi.min(magnitude) };
+                    ExprBounds::Float(lo, hi)
+                }
+            }
+        }
+    }
+}
+
 // Helper function to create a result variable for complex expressions
 fn create_result_var(model: &mut Model, expr: &ExprBuilder) -> VarId {
-    // For now, create a variable with a wide range
-    // In a full implementation, we'd compute bounds based on the expression
     match expr {
         ExprBuilder::Var(var_id) => *var_id,
-        ExprBuilder::Val(_) => {
-            // For constants, we still need a variable to use in constraints
-            model.int(-1000, 1000) // Placeholder bounds
-        }
-        _ => model.int(-1000, 1000), // Placeholder bounds for complex expressions
+        // Constants get a singleton domain; compound expressions the bounds of their values,
+        // computed from the bounds of the operands
+        _ => match expr_bounds(model, expr) {
+            ExprBounds::Int(lo, hi) => model.int(lo as i32, hi as i32),
+            ExprBounds::Float(lo, hi) => model.float(lo, hi),
+        },
     }
 }
 
